@@ -9,6 +9,9 @@ import (
 	"bytes"
 	"encoding/binary"
 	"fmt"
+	"time"
+
+	"github.com/gopacket/gopacket/layers"
 
 	"github.com/scionproto/scion/pkg/addr"
 	"github.com/scionproto/scion/pkg/slayers"
@@ -351,6 +354,67 @@ func (c *c12) mkPair(i int) (*asCfg, *asCfg, uint16, uint16) {
 	return A, B, aIf, bIf
 }
 
+// bfdSendCases: the one-hop packets the router's own BFD sender emits (bfdSend.Send) meet the rule for
+// issuing one-hop packets; and a one-hop packet carrying BFD that is received is consumed, never forwarded.
+func (c *c12) bfdSendCases(n int) {
+	r := c.r
+	for k := 0; k < n; k++ {
+		a := stdAS(r, map[uint16]bool{ifP: true, ifC: true, ifK: true, ifK2: r.Bool(), ifSC: true, ifSK: true})
+		if err := a.build(3, time.Second, time.Second); err != nil {
+			panic(err)
+		}
+		for _, id := range []uint16{ifP, ifC, ifK, ifK2, ifSC, ifSK} {
+			if !a.linkHasBFD(id) {
+				continue
+			}
+			m := &layers.BFD{Version: 1, State: layers.BFDState(r.Intn(4)), DetectMultiplier: 3, MyDiscriminator: layers.BFDDiscriminator(r.Range(1, 1<<30)),
+				DesiredMinTxInterval: 1000000, RequiredMinRxInterval: 1000000}
+			raw, err := a.dp.BFDSend(id, m)
+			if err != nil {
+				c.e.Violate("C12/bfdsend-failed", err.Error(), map[string]any{"if": id})
+				continue
+			}
+			h, ok := parseRawHdr(raw)
+			rep := map[string]any{"if": id, "raw": vlib.Hex(raw), "local": a.ia.String()}
+			if !ok {
+				c.e.Violate("C12/bfdsend-garbled", "BFD packet without address header", rep)
+				continue
+			}
+			ifc := a.ifByID(id)
+			if ifc.sibling {
+				// between sibling routers: empty path, stays inside the AS
+				c.e.Case("bfdsend-sib:"+vlib.Hex(raw), "bfdsend/sibling", false)
+				if h.pathType != 0 || h.srcIA != uint64(a.ia) || h.dstIA != uint64(a.ia) {
+					c.e.Violate("C12/bfdsend-sibling", "BFD packet to a sibling router is not an intra-AS empty-path packet", rep)
+				}
+				continue
+			}
+			reg := h.pathRegion(raw)
+			if h.pathType != 2 || len(reg) != 32 || h.nextHdr != 203 {
+				c.e.Violate("C12/bfdsend-shape", "BFD packet on an external link is not a one-hop packet carrying BFD", rep)
+				continue
+			}
+			segID := binary.BigEndian.Uint16(reg[2:4])
+			ts := binary.BigEndian.Uint32(reg[4:8])
+			ce := binary.BigEndian.Uint16(reg[12:14])
+			want := hopMacFull(a.key, segID, ts, reg[9], binary.BigEndian.Uint16(reg[10:12]), ce)[:6]
+			if h.srcIA != uint64(a.ia) || h.dstIA != uint64(ifc.nb) || ce != id || reg[0]&1 != 1 || !bytes.Equal(want, reg[14:20]) {
+				c.e.Violate("C12/bfdsend-rule", "the router's own one-hop BFD packet does not meet the issuing rule (source local, destination = neighbour of the egress interface, MAC valid)", rep)
+			}
+			// the same packet with next header UDP must pass the real processOHP and the model
+			asUDP := append([]byte(nil), raw...)
+			asUDP[4] = 17
+			c.step(a, 0, asUDP, false, "bfdsend")
+			// received back on an external link it is consumed by the BFD session, never forwarded
+			res := a.dp.Process(raw, id)
+			c.e.Case("bfdrecv:"+vlib.Hex(raw), fmt.Sprintf("bfd-over-onehop/disp%d", res.Disp), false)
+			if res.Disp == router.VerifR2Forward || res.Disp == router.VerifR2Slow {
+				c.e.Violate("C12/bfd-onehop-forwarded", "a one-hop packet carrying BFD was not consumed", rep)
+			}
+		}
+	}
+}
+
 func (c *c12) run() {
 	e, r := c.e, c.r
 	e.Rule = "pairs of neighbouring ASes (random keys, interface ids, link types, one sibling-owned interface each); " +
@@ -358,6 +422,7 @@ func (c *c12) run() {
 		"plus one named mutation per packet (source/destination AS, egress interface, MAC byte, other key, ConsDir, SegID, " +
 		"second hop prefilled, reserved bits, HdrLen slack, destination host kind, L4 kind, wrong receiving interface); " +
 		"non-trivial = every packet (all reach processOHP or the header decoder's length check); distinct by op line"
+	c.bfdSendCases(e.N(12, 120))
 	npairs := e.N(24, 200)
 	per := e.N(500, 4000)
 	other := ia(3, 0xff0000000999)
